@@ -11,3 +11,9 @@
 ; empty; persStale: the persistent index kinds (B-tree, hash) are not attached to a valid on-disk state
 ;@ghost slEmpty Bool
 ;@ghost persStale Bool
+; which page operation recovery applied last: opk (1 InsertTuple, 2 ApplyDelete, 3 MarkDelete, 4 RollbackDelete,
+; 5 UpdateTuple), on which row id / tuple object, and how many operations were applied so far
+;@ghost opk Int
+;@ghost oprid Int
+;@ghost optup Int
+;@ghost nops Int
